@@ -161,3 +161,50 @@ def spec_c02(tier, seed):
                      'reference encoder in the harness written from the RSocket 1.0 frame layouts'],
         technique_extra='; stub translation validation by differential execution',
     )
+
+
+def _harness_eval(expr, module):
+    """evaluate a small expression inside a harness module in a subprocess (keeps shims out of the driver)"""
+    import json as _j
+    import subprocess as _sp
+    from vlib import engine as _e
+    _e.ensure_venv()
+    code = 'import json, %s as h; print(json.dumps(%s))' % (module, expr)
+    out = _sp.check_output([_e.VENV_PY, '-c', code], env=_e._env({}, 'native'), cwd=_e.ROOT, text=True)
+    return _j.loads(out.strip().split('\n')[-1])
+
+
+def spec_c04(tier, seed):
+    q = tier == 'quick'
+    lim = 9 if q else 12
+    pairs = [{'lb': a, 'lc': b} for a in range(0, lim + 1) for b in range(0, lim + 1 - a)]
+    lens = _harness_eval('[len(s) for s in h.STREAMS]', 'harness.c04_chunking')
+    conds = [
+        Cond('c04_chunking', 'c_delimit_step', parts=pairs, timeout=300 if q else 600),
+        Cond('c04_chunking', 'c_cut_once', parts=[{'stream': i} for i in range(4)], timeout=300),
+        Cond('c04_chunking', 'c_read_sizes', parts=[{'stream': i} for i in range(4)], timeout=200),
+        Cond('c04_chunking', 'c_message', parts=[{'lm': n} for n in range(0, 13 if q else 17)], timeout=120),
+        Cond('c04_chunking', 'c_message_real', timeout=120),
+        Cond('c04_chunking', 'w_streams_interesting', timeout=60),
+    ]
+    if not q:
+        twice = [{'stream': i, 'c1': c} for i in range(4) for c in range(0, lens[i] + 1, 3)]
+        conds.append(Cond('c04_chunking', 'c_cut_twice', parts=twice, timeout=300))
+    return dict(
+        conds=conds,
+        explanation='L1 (inductive step): real FrameParser.receive_data on an arbitrary residual buffer followed by an '
+                    'arbitrary chunk (symbolic contents, one process per length pair) equals the reference delimiter on the '
+                    'concatenation, incl. residual and the InvalidFrame path - by induction over reads this is chunking '
+                    'independence for any number of reads. L2: concrete streams of valid/malformed/fragmented frames cut '
+                    'at symbolic offsets (one, or two with the first fixed per process) and at read sizes 1..7 through the '
+                    'real TransportTCP + StreamReader + parse_or_ignore equal the one-shot decode. Message mode: one '
+                    'message in, exactly that frame (or one invalid marker) out, terminates, buffer empty.',
+        bounds=['L1: len(buffer)+len(chunk) <= %d, all length pairs, contents symbolic' % lim,
+                'L2: 4 concrete streams (%s bytes), every single cut%s, read sizes 1..7' % (lens, '' if q else ', second cut symbolic for every third first cut'),
+                'messages of 0..%d bytes with symbolic content' % (12 if q else 16)],
+        outside=['L1 uses a recording stand-in for parse_or_ignore (delimiting never looks inside a frame); frames longer than the bound',
+                 'three or more simultaneous symbolic cuts (follow from L1 by induction)'],
+        functions=['rsocket.frame_parser.FrameParser.receive_data', 'rsocket.frame.parse_or_ignore',
+                   'rsocket.transports.tcp.TransportTCP.next_frame_generator'],
+        stubs=['S1', 'S2', 'S3', 'recording parse_or_ignore stand-in (L1 and message lemma only)', 'real asyncio.StreamReader on VLoop'],
+    )
